@@ -1265,8 +1265,13 @@ func TestProp(t *testing.T) {
 	r.Assume("not demanded (unspecified by the property): signedness of 16-bit lengths (names are <= 32767 bytes) and of the key type (lookups use etypes 0..32767), ranking of entries with timestamps >= 2^31, ranking among entries when a non-zero kvno is requested, lookups that could only match an empty key, the name type of version-1 entries and of AddEntry, requested kvno outside 0..2^32-1")
 	r.Assume("keys expected from AddEntry come from ref/krbcrypto.StringToKey with the default salt (realm + components) and default parameters")
 
+	useJDK := r.Thorough() || os.Getenv("VERIF_JDK") != ""
 	// every lookup of a Case is counted as one evaluation besides the Case itself
-	judge := func(check string, c Case, rt *rapid.T, labels ...string) {
+	enumFails := map[string]enumFail{}
+	var enumMu sync.Mutex
+	var judgeAt func(check string, enumIdx int, c Case, rt *rapid.T, labels ...string)
+	judge := func(check string, c Case, rt *rapid.T, labels ...string) { judgeAt(check, -1, c, rt, labels...) }
+	judgeAt = func(check string, enumIdx int, c Case, rt *rapid.T, labels ...string) {
 		p, err := prepare(c)
 		if err != nil {
 			r.Inconclusive("generator produced a case the reference side cannot handle: %v", err)
@@ -1277,6 +1282,9 @@ func TestProp(t *testing.T) {
 		}
 		nt := ""
 		if c.File != nil {
+			if useJDK {
+				jdkCollect(*c.File, p.file)
+			}
 			labels = append(labels, fileLabels(*c.File)...)
 			if fileNT(*c.File) {
 				nt = "file|" + fileKey(p)
@@ -1322,11 +1330,23 @@ func TestProp(t *testing.T) {
 			r.Count(lnt, ls...)
 		}
 		v := Eval(c)
-		if rt != nil {
+		switch {
+		case rt != nil:
 			if r.Judge(check, c, v) {
 				rt.Fatalf("violation: %s", v.Sig)
 			}
-		} else {
+		case enumIdx >= 0:
+			// parallel enumeration: keep the failing case with the lowest index per signature so
+			// that the replay file does not depend on goroutine timing
+			if !v.OK {
+				enumMu.Lock()
+				k := check + "|" + v.Sig
+				if old, ok := enumFails[k]; !ok || enumIdx < old.idx {
+					enumFails[k] = enumFail{enumIdx, check, c, v}
+				}
+				enumMu.Unlock()
+			}
+		default:
 			r.Violation(check, c, v)
 		}
 	}
@@ -1357,7 +1377,7 @@ func TestProp(t *testing.T) {
 	})
 
 	r.Rule("lookups: files as above but with non-empty keys and clustered key versions / timestamps (< 2^31 nine times in ten, ties included); 10 lookups per file, each derived from a present entry by 0..2 mutations {none, kvno 0, other realm (pool member or one-character variant), component prefix, extension, modification, swap, join/split, other etype, other kvno (+-1, vno8 instead of the 32-bit value, value mod 256, +256)} or a principal that is absent; non-trivial = any lookup that is not an exact copy of an entry, distinct by (file, lookup)")
-	r.Rapid("lookups", r.N(3000, 30000), func(t *rapid.T) {
+	r.Rapid("lookups", r.N(3000, 60000), func(t *rapid.T) {
 		f, pl, labels := drawFile(t, "lookup")
 		c := Case{Kind: "lookups", File: &f}
 		p, err := prepare(c)
@@ -1372,7 +1392,7 @@ func TestProp(t *testing.T) {
 	})
 
 	r.Rule("built: keytab.New() or a parsed version-1/2 file (possibly without entries) extended by 1..4 AddEntry calls (six supported etypes and unsupported ids, 1..3 components, ASCII and non-ASCII passwords, kvno 0..255, timestamps 0..2^32-1), then round trip and 6 lookups; expected keys from the reference string-to-key")
-	r.Rapid("built", r.N(150, 1500), func(t *rapid.T) {
+	r.Rapid("built", r.N(150, 3000), func(t *rapid.T) {
 		c := Case{Kind: "built"}
 		var pl filePools
 		labels := []string{}
@@ -1431,7 +1451,28 @@ func TestProp(t *testing.T) {
 		judge("built", c, t, labels...)
 	})
 
-	enumerate(r, judge)
+	enumerate(r, func(check string, idx int, c Case, labels ...string) { judgeAt(check, idx, c, nil, labels...) }, func() {
+		keys := []string{}
+		for k := range enumFails {
+			keys = append(keys, k)
+		}
+		sortStrings(keys)
+		for _, k := range keys {
+			f := enumFails[k]
+			r.Violation(f.check, f.c, f.v)
+		}
+		enumFails = map[string]enumFail{}
+	})
+	if useJDK {
+		jdkCrossCheck(r)
+	}
+}
+
+type enumFail struct {
+	idx   int
+	check string
+	c     Case
+	v     evid.Verdict
 }
 
 func hostOrder() string {
